@@ -339,7 +339,7 @@ func genPaths(e *emitter) {
 		{"mutating-nodes", append(append([]Op{}, nodes...), pipe, Op{K: "thr", Ety: 1, V: 1}), [][]int{{8}, {8}, {8, 2}}},
 		{"filtered-sink-threshold-error", append(append([]Op{}, nodes...), pipe, Op{K: "thrs", Ety: 1, V: 1}), [][]int{{2}, {0}, {2}}},
 	}
-	for _, code := range []int{3, 4, 5, 6, 70, 71, 72, 73, 80, 81, 82, 83, 90, 91, 92, 93, 94, 95, 96, 97, 98} {
+	for _, code := range []int{120, 121, 122, 123, 124, 3, 4, 5, 6, 70, 71, 72, 73, 80, 81, 82, 83, 90, 91, 92, 93, 94, 95, 96, 97, 98} {
 		for pos := 0; pos < 3; pos += 2 {
 			b := [][]int{{0}, {0}, {2}}
 			b[pos] = []int{code}
@@ -426,9 +426,9 @@ func genClasses(e *emitter) {
 				}
 			}
 		}
-		for payload := 0; payload <= 3; payload++ {
+		for payload := 0; payload <= 6; payload++ {
 			for clock := 0; clock <= 2; clock++ {
-				for vb, b := range [][][]int{{{0}, {8}, {2}, {8}}, {{1}, {0}, {0}, {3}}, {{110}, {0}, {2}, {0}}, {{111}, {112}, {2}, {0}}} {
+				for vb, b := range [][][]int{{{0}, {8}, {2}, {8}}, {{1}, {0}, {0}, {3}}, {{110}, {0}, {2}, {0}}, {{111}, {112}, {2}, {0}}, {{120}, {121}, {2}, {122}}, {{123}, {124}, {0}, {123}}} {
 					c := Case{Gen: "classes:first-event", Hist: hist, Ety: 1, Beh: b, Payload: payload, Clock: clock}
 					_ = n
 					if vb == 1 {
@@ -1144,7 +1144,7 @@ func genRandom(e *emitter, r *hc.Rand, n int) {
 		for o := 0; o < nobj; o++ {
 			l := 1 + r.Intn(3)
 			for j := 0; j < l; j++ {
-				beh[o] = append(beh[o], []int{0, 0, 0, 0, 0, 0, 0, 1, 1, 2, 3, 3, 4, 5, 6, 70, 71, 72, 73, 80, 82, 8, 8, 90, 91, 92, 93, 94, 95, 96, 97, 98}[r.Intn(32)])
+				beh[o] = append(beh[o], []int{0, 0, 0, 0, 0, 0, 0, 1, 1, 2, 3, 3, 4, 5, 6, 70, 71, 72, 73, 80, 82, 8, 8, 90, 91, 92, 93, 94, 95, 96, 97, 98, 120, 121, 122, 123}[r.Intn(36)])
 			}
 			if r.Chance(1, 12) {
 				gate = append(gate, o+1)
